@@ -185,6 +185,11 @@ func c09Source(cfg c09Config, i int) (string, []c09Call) {
 		name := "missing.p"
 		if t < cfg.N {
 			name = c09Name(t)
+		} else if v := (i + 2*j) % 6; v > 0 {
+			// a name is a name, not a path: these do not name the loaded
+			// script they resemble
+			x := c09Name((i + j) % cfg.N)
+			name = []string{"", "./" + x, x + "/", "sub/../" + x, "./missing.p", strings.ToUpper(x)}[v]
 		}
 		// the call sits in one of thirteen syntactic places (a use() call
 		// links wherever it is written, executed or not): as a statement at
